@@ -17,6 +17,9 @@ def gen_case(rng, width=None, wild=False, opts=None, decorate_p=0.0):
     P = gen.gen_problem(rng, opts)
     L = gen.layout_opts(rng, wild=wild, width=min(width, 100))
     L["width"] = min(L["width"], width)
+    if decorate_p and rng.random() < 0.3:
+        L["width"] = width        # lines filled up to the column limit: an edit that lengthens one must re-wrap it
+        L["dollar"] = max(L["dollar"], 0.3)
     text = gen.render(rng, P, L)
     feats = []
     if decorate_p:
@@ -415,6 +418,8 @@ class Ref:
             self.mts[e["orig"]]["laws"] = [x.upper() for x in e["laws"]]
         elif k == "tr_degrees":
             self.trs[e["orig"]]["star"] = bool(e["value"])
+        elif k == "placement":
+            pass              # which block per-cell data are written in does not change what the file denotes
         elif k == "surface_transform":
             self.surfaces[e["orig"]]["pointer"] = None if e["transform"] is None else self.trs[e["transform"]]["number"]
         else:
@@ -482,7 +487,7 @@ def c03_check(case, prog):
 # ----------------------------------------------------------------------------- C07
 _CELLMOD_CARD = re.compile(r"^\*?(IMP:|VOL\b|U\b|LAT\b|FILL\b)", re.I)
 _CELL_EDITS = {"cell_number", "density", "importance", "volume", "material_assign", "universe_number",
-               "cell_universe", "fill_universe", "lattice"}
+               "cell_universe", "fill_universe", "lattice", "placement"}
 
 
 def _norm_lines(card):
@@ -523,6 +528,7 @@ def touched_cards(bu, applied, exps=None):
         if e["kind"].endswith("_number"):
             ren.setdefault(e["kind"][:-7], set()).add(e["orig"])
     cell_edit = any(e["kind"] in _CELL_EDITS for e in applied)
+    placement = any(e["kind"] == "placement" for e in applied)
     in_cells = ren.get("surface", set()) | ren.get("cell", set()) | ren.get("material", set()) | ren.get("universe", set())
     in_surfs = ren.get("transform", set()) | ren.get("surface", set())
     for bi in range(3):
@@ -533,8 +539,8 @@ def touched_cards(bu, applied, exps=None):
             head = toks[0]
             m = re.match(r"^([*+]?)([A-Z]*)(\d+)$", head)
             num = int(m.group(3)) if m else None
-            if bi == 0 and ("cell", num) in own:
-                touched.add((bi, ci))
+            if bi == 0 and (("cell", num) in own or placement):
+                touched.add((bi, ci))      # moving per-cell data between the blocks rewrites every cell card
             if bi == 1 and ("surface", num) in own:
                 touched.add((bi, ci))
             if bi == 2 and m and m.group(2) in ("M", "MT") and ("material", num) in own:
@@ -719,7 +725,8 @@ def _touched_card_check(cu, ce, bi, exps, applied):
                 r = pairwise(ku[key], vals)
                 if r:
                     return r
-        lost = [k for k in ku if k not in ke and not k.startswith("IMP:")]
+        moved = {e["key"].upper() for e in applied if e["kind"] == "placement"}
+        lost = [k for k in ku if k not in ke and not k.startswith("IMP:") and k.lstrip("*") not in moved]
         if lost:
             return {"kind": "parameter-lost", "before": cu.text, "after": ce.text, "tokens": lost}
         return None
